@@ -112,6 +112,7 @@ where
     let mut prefer_secondary = false;
 
     while queues.has_work() {
+        verif_tick!("repair/queue_step");
         if prefer_secondary
             && (process_ridge_queue_step(
                 tds,
@@ -2458,6 +2459,7 @@ where
     }
 
     while let Some((facet, key)) = pop_queue(&mut queue, config.queue_order) {
+        verif_tick!("repair/queue_step");
         queued.remove(&key);
         let facet = facet_handles.remove(&key).unwrap_or(facet);
         let Some(facet) = resolve_facet_handle_for_key(tds, facet, key) else {
